@@ -183,6 +183,17 @@ Theorem C08_dns_list_skipping_heads_refuted :
   forall fuel, dns_list item true fuel [true] = Err EFuel.
 Proof. exact dns_list_truncated_after_next_refuted. Qed.
 
+(** ParsePacket: whatever length the 4-byte size field announces, what is allocated before the
+    data has arrived stays within the limit constant of the model (4 + 8 MiB); a successful
+    parse allocated at least that; a window up to 12 MiB would not do. *)
+Theorem C08_packet_prealloc_bounded :
+  forall stream, packet_prealloc stream <= 4 + max_packet.
+Proof. exact packet_prealloc_bounded. Qed.
+
+Theorem C08_packet_window_12mib_refuted :
+  exists s, length s = 4%nat /\ 4 + max_packet < packet_prealloc_with (12 * 1048576) s.
+Proof. exact packet_window_12mib_refuted. Qed.
+
 (** Non-vacuity: a schema with a vector of structs satisfies [sok], decoding a
     valid encoding succeeds and consumes it. *)
 Example C08_sok_satisfiable :
